@@ -300,6 +300,37 @@ class Impl:
         rows = lambda Mx: ";".join(",".join(showrat(v) for v in row) for row in Mx)
         self.last_line = "dump.cvx G=%s F=%s M=%s" % (rows(G), ",".join(showrat(v) for v in F), "|".join(rows(Mx) for Mx in Ms))
         return "kinds=" + ",".join(kinds) + " vals={" + ",".join("%s:%s" % kv for kv in vals) + "} duals=" + dual_s
+    def op_dump_cvxheur(self, seed):
+        """the REAL CvxpyWrapper's dimension-reduction interface on the collected problem: `prepare_heuristic(wc, tol)` must add
+        `objective >= wc - tol` (absolute tolerance, on the objective), and every `heuristic(W)` call must minimise <W, G>
+        for the W it was given, under all the constraints"""
+        import cvxpy as cp
+        from PEPit.wrappers.cvxpy_wrapper import CvxpyWrapper
+        rng = np.random.default_rng(int(seed))
+        w = CvxpyWrapper(verbose=0)
+        w.set_main_variables()
+        k = 0
+        for kind, item in self.wrapper.sent:
+            if kind == "C": w.send_constraint_to_solver(item)
+            else: w.send_lmi_constraint_to_solver(k, item); k += 1
+        w.generate_problem(self.pep.objective)
+        n, m = Point.counter, Expression.counter
+        A = rng.integers(-3, 4, size=(n, n)).astype(float); G = A + A.T
+        F = rng.integers(-4, 5, size=(m,)).astype(float)
+        w.G.value = G; w.F.value = F
+        wc = float(rng.choice([0.5, 7.0, -3.0, 1024.0, 0.0])); tol = float(rng.choice([2.0 ** -10, 2.0 ** -20, 0.0, 0.5]))
+        n0 = len(w._list_of_solver_constraints)
+        w.prepare_heuristic(wc, tol)
+        added = w._list_of_solver_constraints[n0:]
+        prep = ",".join(showrat(float(np.asarray(c.expr.value).reshape(-1)[0])) for c in added)
+        objs = []; Ws = []
+        for _ in range(2):
+            B = rng.integers(-2, 3, size=(n, n)).astype(float); W = B + B.T; Ws.append(W)
+            prob = w.heuristic(W)
+            objs.append("%s:%s:%d" % (type(prob.objective).__name__, showrat(float(prob.objective.value)), len(prob.constraints)))
+        rows = lambda Mx: ";".join(",".join(showrat(v) for v in row) for row in Mx)
+        self.last_line = "dump.cvxheur G=%s F=%s wc=%s tol=%s W=%s" % (rows(G), ",".join(showrat(v) for v in F), showrat(wc), showrat(tol), "|".join(rows(W) for W in Ws))
+        return "prep=%s heur=%s" % (prep, " ".join(objs))
     def op_dump_dense(self):
         from PEPit.tools.expressions_to_matrices import expression_to_matrices
         items = []
@@ -381,6 +412,7 @@ class Impl:
             before = [[arr[i, j] for j in range(n)] for i in range(n)]
             m = PSDMatrix(arr); self.o[name] = m
             intact = all(arr[i, j] is before[i][j] for i in range(n) for j in range(n)) and m.matrix_of_expressions is not arr
+            arr[:, :] = 0          # the caller reuses its buffer (a template refilled for the next LMI): the declared LMI must not change
             return "ok" if intact else "ok OPERAND-ALTERED (the ndarray given to PSDMatrix was modified in place or is aliased by it)"
         self.o[name] = PSDMatrix(rows); return "ok"
     def op_dump_psd(self, m): return show_psd(self.o[m])
@@ -402,6 +434,15 @@ class Impl:
     def op_dump_fn(self, f): return dump_fn(self.o[f])
     def op_dump_class(self, f): return dump_class(self.o[f])
     def op_dump_tables(self, f): return dump_tables(self.o[f])
+    def op_dump_dualtables(self, f):
+        try: d = self.o[f].get_class_constraints_duals()
+        except ValueError: return "err ValueError"
+        except TypeError: return "err TypeError"
+        out = []
+        for name, tab in d.items():
+            rows = tab.values.tolist()
+            out.append((name, "".join("[" + ";".join(showrat(float(c)) for c in r) + "]" for r in rows)))
+        return canon(out)
     def op_dump_part(self, b): return dump_part(self.o[b])
     def op_dump_sent(self):
         out = " ## ".join(("C:" + show_cons(c)) if k == "C" else ("P:" + show_psd(c)) for k, c in self.wrapper.sent)
@@ -546,9 +587,15 @@ def gen_collect(seed):
         cells = [expr() for _ in range(4)]; p.emit("pep.psd 2 " + " ".join(cells))
     if rnd.random() < .3:
         cells = [expr() for _ in range(4)]; p.emit("fn.psd %s 2 " % rnd.choice(p.F) + " ".join(cells))
+    if rnd.random() < .35:
+        # an LMI declared from an ndarray of objects (a template the caller refills afterwards), scalar entries included
+        cells = [(rnd.choice(["#1", "#0", "#2", "#-1/2"]) if rnd.random() < .3 else expr()) for _ in range(4)]
+        nm = "ma%d" % len(p.lines); p.emit("psd.new %s 2 %s" % (nm, " ".join(cells)))
+        p.emit("pep.addpsd %s" % nm if rnd.random() < .6 else "fn.addpsd %s %s" % (rnd.choice(p.F), nm))
     for _ in range(rnd.randint(1, 2)): p.emit("pep.metric %s" % expr())
     p.emit("solve.collect"); p.emit("dump.sent"); p.emit("dump.counters")
     p.emit("dump.cvx %d" % rnd.randint(0, 10 ** 6))
+    if rnd.random() < .5: p.emit("dump.cvxheur %d" % rnd.randint(0, 10 ** 6))
     if os.environ.get("PEPV_TEE"):
         p.emit("dump.task"); p.emit("dump.dense")
         if rnd.random() < .5: p.emit("dump.heur %d" % rnd.randint(0, 10 ** 6))
@@ -558,6 +605,9 @@ def gen_collect(seed):
             e = expr(); c = p.newc(); p.emit("cons.gec %s %s 1/2" % (c, e)); p.emit("part.addcons b1 %s" % c)
         if rnd.random() < .3: p.sample_ops(rnd.choice(leaves), 1)
         if rnd.random() < .3: p.setparam(rnd.choice(leaves))
+        if rnd.random() < .4: p.emit("pep.metric %s" % expr())          # one more performance metric before solving again
+        if rnd.random() < .3:
+            e = expr(); c = p.newc(); p.emit("cons.lec %s %s 1" % (c, e)); p.emit("pep.addcons %s" % c)
         if nb and rnd.random() < .3:
             x = rnd.choice(p.P); n = p.newp(); p.emit("part.block %s b1 %s 0" % (n, x))
         p.emit("solve.collect"); p.emit("dump.sent"); p.emit("dump.counters")
@@ -683,8 +733,8 @@ def gen_resolve(seed):
             if rnd.random() < .35: p.setparam(f)                  # the user changes a class parameter between solves (same samples)
             else: p.sample_ops(f, 1)                              # the model grows between solves
         elif r < .32:
-            p.emit("dump.tables %s" % rnd.choice(p.F))
-        elif r < .32: p.emit("solve.fail")
+            f_ = rnd.choice(p.F); p.emit("dump.tables %s" % f_); p.emit("dump.dualtables %s" % f_)
+        elif r < .36: p.emit("solve.fail"); p.emit("dump.counters")        # a solve that finds no value, in the middle of a history
         elif r < .5 and p.E: p.emit("eval.ex %s" % rnd.choice(p.E))
         elif r < .58 and mats: ask(rnd.choice(["psd", "psd", "psddual"]))
         elif r < .65 and p.C: p.emit("eval.cons %s" % rnd.choice(p.C))
